@@ -7,7 +7,7 @@ import (
 func init() { generators["C13"] = genC13 }
 
 // durations handed to time.NewTimer / context.WithTimeout inside a function, in source order
-func (p *pkgInfo) timeouts(key string) (timers, ctxs []int64) {
+func (p *pkgInfo) c13Timeouts(key string) (timers, ctxs []int64) {
 	fd := p.funcs[key]
 	if fd == nil || fd.Body == nil {
 		miss("function " + key)
@@ -41,18 +41,18 @@ func (p *pkgInfo) timeouts(key string) (timers, ctxs []int64) {
 	return
 }
 
-func leanIntList(l []int64) string {
+func c13IntList(l []int64) string {
 	s := "["
 	for i, v := range l {
 		if i > 0 {
 			s += ", "
 		}
-		s += itoa(v)
+		s += c13Itoa(v)
 	}
 	return s + "]"
 }
 
-func itoa(v int64) string {
+func c13Itoa(v int64) string {
 	if v < 0 {
 		return "(-1)"
 	}
@@ -76,9 +76,9 @@ func genC13(p *pkgInfo, l *leanFile) {
 		p.emitSkeleton(l, f, "certLoadWaitChans", "obtainCertWaitChans")
 	}
 	for _, f := range fns {
-		t, c := p.timeouts(f)
+		t, c := p.c13Timeouts(f)
 		l.pf("/-- time.NewTimer / context.WithTimeout durations (ns) in %s, source order -/\n", f)
-		l.pf("def timers_%s : List Int := %s\ndef ctxTimeouts_%s : List Int := %s\n", leanIdent(f)[3:], leanIntList(t), leanIdent(f)[3:], leanIntList(c))
+		l.pf("def timers_%s : List Int := %s\ndef ctxTimeouts_%s : List Int := %s\n", leanIdent(f)[3:], c13IntList(t), leanIdent(f)[3:], c13IntList(c))
 	}
 	// retry intervals of doWithRetry (how many attempts fit into a worker's time-out)
 	var iv []int64
@@ -95,7 +95,7 @@ func genC13(p *pkgInfo, l *leanFile) {
 	} else {
 		miss("retryIntervals")
 	}
-	l.pf("/-- retryIntervals (ns) -/\ndef retryIntervals : List Int := %s\n", leanIntList(iv))
+	l.pf("/-- retryIntervals (ns) -/\ndef retryIntervals : List Int := %s\n", c13IntList(iv))
 	facts["C13"] = map[string]any{"functions": fns}
 	l.pf("\nend CM.Gen.C13\n")
 }
